@@ -40,6 +40,12 @@ type Violation struct {
 	Allowed  string          `json:"allowed"`
 	Crash    bool            `json:"crash,omitempty"` // the process died
 	Sound    bool            `json:"sound_detector,omitempty"`
+	// Preceding is the list of case indexes the same worker ran in this space
+	// just before this case (most recent last). A violation that does not
+	// reproduce alone is replayed after them: the library may carry state from
+	// one call to the next (a cache, a pool, a hoisted buffer).
+	Preceding      []int64 `json:"preceding_cases,omitempty"`
+	NeedsPreceding bool    `json:"needs_preceding_cases,omitempty"`
 }
 
 // Space is one enumerated space of a check.
@@ -154,6 +160,7 @@ type W struct {
 	curCase json.RawMessage
 	sigN    map[string]int
 	ntN     int64
+	hist    []int64 // indexes run by this worker in this space, most recent last (bounded)
 	// Local is per-worker scratch storage for the check (caches).
 	Local map[string]any
 }
@@ -222,7 +229,11 @@ func (w *W) Violate(sig, human, observed, allowed string) {
 	if w.sigN[sig] > 2 || len(w.viol) >= 400 {
 		return
 	}
-	w.viol = append(w.viol, Violation{Property: w.c.Check.ID, Sig: sig, Space: w.space, Case: cs, Human: human, Observed: observed, Allowed: allowed})
+	v := Violation{Property: w.c.Check.ID, Sig: sig, Space: w.space, Case: cs, Human: human, Observed: observed, Allowed: allowed}
+	if w.curCase == nil && len(w.hist) > 1 {
+		v.Preceding = append([]int64{}, w.hist[:len(w.hist)-1]...)
+	}
+	w.viol = append(w.viol, v)
 }
 
 // ViolateSound records a violation witnessed by a sound detector whose reports
@@ -333,6 +344,9 @@ func (c *Ctx) Threads() int {
 	return n
 }
 
+// histMax bounds the per-worker list of preceding cases kept for replay.
+const histMax = 512
+
 // runIndexed runs an indexable space over this shard's part of [0,size).
 func (c *Ctx) runIndexed(sp *Space) {
 	size := sp.Size(c)
@@ -374,6 +388,10 @@ func (c *Ctx) runIndexed(sp *Space) {
 					}
 					w.cur = i
 					w.curCase = nil
+					if len(w.hist) >= histMax {
+						w.hist = append(w.hist[:0], w.hist[len(w.hist)-histMax/2:]...)
+					}
+					w.hist = append(w.hist, i)
 					if c.marker != nil {
 						c.marker.set(w.slot, sp.Name, i, "")
 					}
@@ -526,6 +544,13 @@ func ReplayOne(chk *Check, tier string, v *Violation) []Violation {
 		if err := json.Unmarshal(v.Case, &d); err != nil {
 			fmt.Fprintln(os.Stderr, "bad case descriptor:", err)
 			os.Exit(3)
+		}
+		if v.NeedsPreceding {
+			for _, i := range v.Preceding {
+				w.cur = i
+				runGuarded(sp, i, w)
+			}
+			w.viol, w.sigN = nil, nil
 		}
 		w.cur = d.Idx
 		runGuarded(sp, d.Idx, w)
